@@ -398,6 +398,7 @@ class Interp:
         self.summarise_predicates = summarise_predicates
         self.virtual_loops = virtual_loops
         self.npaths = 0
+        self.forced_next = {}
         self.fallible_sites = []
         self._loops_cache = {}
         self._loopuid = 0
@@ -1130,6 +1131,9 @@ class Interp:
                 if e_ is not None and e_[0] == 'len':
                     info['range'] = r_
                     info['iter'] = ('iter', e_[1], 'ref')       # indexed loop over a collection (see index_path)
+        arr = self.known_array(info.get('iter')) if info['kind'] == 'for' else None
+        if arr is not None:
+            return self.unroll_loop(st, ctx, uid, arr, outer_ctx, work, finished)
         entry_mem = dict(st.mem)
         W = set()
         lvname = site_str(uid)
@@ -1200,6 +1204,39 @@ class Interp:
                     finished.append(s)
                 else:
                     finished.append(s)
+
+    def known_array(self, it):
+        """elements of `for v in [a, b, c]` (an array value of known elements taken by value), else None"""
+        if isinstance(it, tuple) and it and it[0] == 'into_iter' and is_agg(it[1], 'array') and 0 < len(it[1][4]) <= 16:
+            return [v for _, v in it[1][4]]
+        return None
+
+    def unroll_loop(self, st, ctx, uid, elems, outer_ctx, work, finished):
+        """a `for` over a fixed array of known elements is the body repeated once per element, in order: no loop effect, the
+        effects of the iterations follow each other as those of the straight-line code do"""
+        states = [st]
+        try:
+            for v in list(elems) + [None]:
+                self.forced_next[uid] = NONE if v is None else SOME(v)
+                nxt = []
+                for s in states:
+                    res = []
+                    self.explore([s], ctx, res)
+                    for r in res:
+                        if r.status in ('back', 'exit'):
+                            back = r.status == 'back'
+                            r.done = False
+                            r.status = None
+                            self.npaths -= 1
+                            if back:
+                                nxt.append(r)
+                            elif not self.leaves(r, r.frames[-1].block, outer_ctx, finished):
+                                work.append(r)
+                        else:
+                            finished.append(r)
+                states = nxt
+        finally:
+            self.forced_next.pop(uid, None)
 
     def counted_loop(self, st, info, bodies, W, lvname):
         """`let mut i = k; while i < N { ..; i += 1 }` is the loop `for _ in k..N`: when one carried integer starts at a constant,
@@ -1810,6 +1847,9 @@ class Interp:
             return ('map', a0, args[1])
         if decl == 'std::iter::Iterator::zip':
             b = args[1]
+            if a0[0] == 'iter' and b[0] == 'skip' and b[1] == a0 and b[2] == INT(1):
+                # `s.iter().zip(s.iter().skip(1))`: the consecutive pairs of s, i.e. `s.windows(2)` handing out (&w[0], &w[1])
+                return ('windows', a0[1], INT(2), 'pairs')
             if b[0] not in ('iter', 'map', 'zip', 'into_iter'):
                 b = ('into_iter', b)
             return ('zip', a0, b)
@@ -1822,6 +1862,8 @@ class Interp:
         if decl == 'std::clone::Clone::clone' and not self.local_body(t):
             v = self.strip_ref(st, a0)
             return v
+        if decl == 'std::iter::Iterator::next' and site in self.forced_next:
+            return self.forced_next[site]
         if decl == 'std::iter::Iterator::next' and not self.local_body(t):
             it = self.strip_ref(st, a0)
             base, fs = self.map_chain(it)
@@ -2011,6 +2053,9 @@ class Interp:
     def elem_of(self, base, site):
         if base[0] == 'zip':
             return agg('tuple', '', 0, (('0', self.elem_of(base[1], site)), ('1', self.elem_of(base[2], site))))
+        if base[0] == 'windows' and len(base) == 4:
+            w = ('elem', base[:3], site)
+            return agg('tuple', '', 0, (('0', ('ref', (('T', w), (('i', INT(0)),)))), ('1', ('ref', (('T', w), (('i', INT(1)),))))))
         if base[0] == 'iter':
             # element of a slice iterator: a reference to the element location
             return ('elemref', base[1], site)
